@@ -241,7 +241,7 @@ def rule_effect(facts, cg):
 def run(ctx):
     facts = ctx["facts"]
     cg = CallGraph(facts)
-    return [rule_ro(facts, cg), rule_wmc(facts, cg), rule_effect(facts, cg), rule_iso(facts), rule_seg(facts), rule_cursor(facts, "C14-CURSOR", ["glaredb_core"], 1), rule_rowcount(facts), rule_ctascreate(facts)]
+    return [rule_ro(facts, cg), rule_wmc(facts, cg), rule_effect(facts, cg), rule_iso(facts), rule_seg(facts), rule_cursor(facts, "C14-CURSOR", ["glaredb_core"], 1), rule_rowcount(facts), rule_ctascreate(facts), rule_insertcols(facts)]
 
 
 
@@ -391,6 +391,19 @@ def rule_ctascreate(facts):
                           f"(line {c.line}): when every batch takes that branch (an empty result) the statement succeeds but the table is never created", rec["file"], ln)
     if not found:
         r.missing_anchor("the catalog/storage creation call in the CREATE TABLE AS operator")
+    return r
+
+
+def rule_insertcols(facts):
+    """see rules/astclause.py"""
+    from .astclause import clause_sites
+    r = RuleResult("C14-INSERTCOLS", "the INSERT binder consults the statement's column list wherever it builds the bound insert (mapped or refused, never dropped)", floor=1)
+    for fn, rec, ln, guarded in clause_sites(facts, lambda i: "bind_insert::InsertBinder" in i, "BoundInsert", "columns", "ast::Insert"):
+        r.functions.add(fn.id)
+        r.inst({"fn": fn.id, "line": ln, "column_list_consulted": guarded}, guarded)
+        if not guarded:
+            r.violate(fn.id, "insert-column-list-dropped", f"the bound INSERT is built at line {ln} without any branch on the statement's column list: `INSERT INTO t (b, a) VALUES (1, 2)` "
+                      "stores a=1, b=2", rec["file"], ln)
     return r
 
 
